@@ -79,7 +79,7 @@ def height_maps(tier, rng, hs):
             [0] + [10 ** (3 * i) for i in range(1, n)],
             [0] + sorted([2 ** 64 - 1 - 7 * (n - 1 - i) for i in range(1, n)]),     # right below the end of uint64
             [0] + [2 ** 53 + i for i in range(1, n)]]                               # beyond the exact range of a float64 (JSON numbers)
-    extra = 2 if tier == "quick" else 8
+    extra = 1 if tier == "quick" else 8
     for _ in range(extra):
         maps.append([0] + sorted(rng.sample(range(1, 2 ** 63), n - 1)))
     return maps
@@ -163,7 +163,7 @@ def run(c):
             return gen2, None, []
         hin = os.path.join(c.work, "hardfork_in.json")
         json.dump(dict(trans=T, heights=[0, 2, 3], maps=[[str(x) for x in m] for m in height_maps(c.tier, rng, [0, 2, 3])],
-                       runs=60 if thorough else 12, run_len=120 if thorough else 60), open(hin, "w"))
+                       runs=40 if thorough else 10, run_len=100 if thorough else 50), open(hin, "w"))
         runs = [("chain", go("./chain/", "^TestVerifHardfork$", {"VERIF_IN": hin, "VERIF_OUT": os.path.join(c.work, "hardfork_out.json"),
                                                                  "VERIF_TRACE": tracepath}, 2400))]
         return gen2, T, runs
@@ -211,7 +211,7 @@ def run(c):
 
         # ---- 4. direction B: the recorded random run of restarts validated by TLC against HardforkTrace.tla
         lines = [l for l in open(tracepath) if l.strip()] if os.path.exists(tracepath) else []
-        if len(lines) < 200:
+        if len(lines) < 150:
             raise vlib.Infra("random restart run too short: %d events" % len(lines))
         ok, matched, total, tres = vlib.validate_trace(SPEC_DIR, "HardforkTrace", "HardforkTrace.cfg", c.work, tracepath, timeout=1500)
         c.add_tlc(tres, "trace validation of the recorded restart run (HardforkTrace)")
